@@ -359,6 +359,10 @@ def scenario_bulk(rng, quick, n, mode):
     return ops
 
 
+def is_skip(evs):
+    return any(e.get("ev") in ("commit_skip", "finalize") for e in evs)
+
+
 def is_bulk(evs):
     return any(e.get("ev") in ("begin_batch", "commit_skip", "finalize") for e in evs)
 
@@ -394,9 +398,13 @@ def run_prop(prop, tier, out: Outcome):
         for (li, name) in d["mismatches"]:
             ev = evs[li - 1] if 0 < li <= len(evs) else {}
             owners = {OWNER.get(name)} | set(ALSO.get(name, []))
-            if is_bulk(evs[:li]):
-                # a bulk-ingested memory that answers differently from what the specification (= plain puts) says
+            if is_skip(evs[:li]):
+                # a memory ingested through skip-index commits that answers differently from what the specification (= plain
+                # puts) says: C40 alone (the other properties do not quantify over that path)
                 owners = {"C40"}
+            elif is_bulk(evs[:li]):
+                # batch mode only changes when things are synced and how the log is sized: the ordinary owners stay, C40 joins
+                owners = owners | {"C40"}
             if prop in owners:
                 mine.append((li, name, ev))
         if d.get("undiagnosed") and prop == "C10":
